@@ -26,6 +26,21 @@ fn strip_buf(s: &str) -> String {
     }
 }
 
+/// the functions keep no memory between calls: before every box open the same thread opens (and rightly rejects) a box that
+/// names the SAME peer public key and nonce but ANOTHER own secret key — and one with another peer key and the same secret key — so
+/// that anything remembered from a previous call under part of its operands shows up in the call that follows
+fn prime_box_calls(pk: &[u8; 32], sk: &[u8; 32], n: &[u8; 24]) {
+    let mut other_sk = *sk;
+    for x in other_sk.iter_mut() { *x ^= 0x5c; }
+    let (other_pk, _) = crypto_box_keypair();
+    let junk = [0x11u8; 16 + 5];
+    let mut out = [0u8; 5];
+    let _ = crypto_box_open_easy(&mut out, &junk, n, pk, &other_sk);
+    let _ = crypto_box_open_easy(&mut out, &junk, n, &other_pk, sk);
+    let mut c = [0u8; 16 + 5];
+    let _ = crypto_box_easy(&mut c, b"prime", n, pk, &other_sk);
+}
+
 pub fn dispatch(op: &str, a: &[&str]) -> Option<Ans> {
     let b: Vec<Vec<u8>> = a.iter().map(|s| unhex_lenient(s)).collect();
     let r: Ans = match op {
@@ -195,6 +210,7 @@ pub fn dispatch(op: &str, a: &[&str]) -> Option<Ans> {
         // pk sk nonce ct buf
         "box_open_easy" => {
             let (pk, sk, n, c): ([u8; 32], [u8; 32], [u8; 24], &[u8]) = (arr(&b[0]), arr(&b[1]), arr(&b[2]), &b[3]);
+            prime_box_calls(&pk, &sk, &n);
             let mut buf = b[4].clone();
             let r = crypto_box_open_easy(&mut buf, c, &n, &pk, &sk);
             let mut s = vec![0u8; c.len().saturating_sub(16)];
@@ -204,6 +220,7 @@ pub fn dispatch(op: &str, a: &[&str]) -> Option<Ans> {
         // pk sk nonce mac ct buf
         "box_open_detached" => {
             let (pk, sk, n, mac, c): ([u8; 32], [u8; 32], [u8; 24], [u8; 16], &[u8]) = (arr(&b[0]), arr(&b[1]), arr(&b[2]), arr(&b[3]), &b[4]);
+            prime_box_calls(&pk, &sk, &n);
             let mut buf = b[5].clone();
             let r = crypto_box_open_detached(&mut buf, &mac, c, &n, &pk, &sk);
             let mut s = vec![0u8; c.len()];
@@ -213,6 +230,7 @@ pub fn dispatch(op: &str, a: &[&str]) -> Option<Ans> {
         // pk sk nonce ct
         "box_open_easy_inplace" => {
             let (pk, sk, n): ([u8; 32], [u8; 32], [u8; 24]) = (arr(&b[0]), arr(&b[1]), arr(&b[2]));
+            prime_box_calls(&pk, &sk, &n);
             let mut buf = b[3].clone();
             let r = crypto_box_open_easy_inplace(&mut buf, &n, &pk, &sk);
             let c = &b[3];
@@ -224,6 +242,7 @@ pub fn dispatch(op: &str, a: &[&str]) -> Option<Ans> {
         // pk sk nonce mac ct
         "box_open_detached_inplace" => {
             let (pk, sk, n, mac): ([u8; 32], [u8; 32], [u8; 24], [u8; 16]) = (arr(&b[0]), arr(&b[1]), arr(&b[2]), arr(&b[3]));
+            prime_box_calls(&pk, &sk, &n);
             let mut buf = b[4].clone();
             let r = crypto_box_open_detached_inplace(&mut buf, &mac, &n, &pk, &sk);
             let c = &b[4];
